@@ -113,15 +113,146 @@ thread_local! {
     static LAST_PANIC: RefCell<Option<String>> = const { RefCell::new(None) };
 }
 
+// ---------------------------------------------------------------------------
+// Baton mode: the same scenario on REAL OS threads, released one at a time at the same
+// seams by a seeded scheduler. shuttle's simulated threads share the OS thread's
+// `thread_local!`s, which real threads do not; a violation that needs two simulated
+// threads is therefore confirmed here (true per-thread TLS) before it is reported.
+
+pub static BATON: std::sync::atomic::AtomicBool = std::sync::atomic::AtomicBool::new(false);
+static BATON_SIM: Mutex<Option<SimCtx>> = Mutex::new(None);
+static BATON_STATE: Mutex<Option<BatonState>> = Mutex::new(None);
+static BATON_CV: std::sync::Condvar = std::sync::Condvar::new();
+
+thread_local! {
+    static BATON_TASK: std::cell::Cell<usize> = const { std::cell::Cell::new(0) };
+}
+
+pub struct BatonState {
+    pub current: usize,
+    pub alive: Vec<bool>,
+    pub rng: Rng,
+    pub stay: u32,
+    pub decisions: u64,
+    pub deadline: std::time::Instant,
+    pub timed_out: bool,
+}
+
+pub fn baton_on() -> bool {
+    BATON.load(std::sync::atomic::Ordering::SeqCst)
+}
+
+pub fn baton_begin(ntasks: usize, seed: u64, stay: u32, limit: std::time::Duration) {
+    let mut ctx = SimCtx::new();
+    ctx.in_sim = true;
+    *BATON_SIM.lock().unwrap_or_else(|e| e.into_inner()) = Some(ctx);
+    let mut rng = Rng::new(seed ^ 0xBA70);
+    let first = 1 + rng.below(ntasks);
+    let mut alive = vec![true; ntasks + 1];
+    alive[0] = false; // task 0 is the spawning thread; it never holds the baton
+    *BATON_STATE.lock().unwrap_or_else(|e| e.into_inner()) = Some(BatonState {
+        current: first,
+        alive,
+        rng,
+        stay,
+        decisions: 0,
+        deadline: std::time::Instant::now() + limit,
+        timed_out: false,
+    });
+    BATON.store(true, std::sync::atomic::Ordering::SeqCst);
+}
+
+pub fn baton_end() -> (SimCtx, bool) {
+    BATON.store(false, std::sync::atomic::Ordering::SeqCst);
+    let timed_out = BATON_STATE.lock().unwrap_or_else(|e| e.into_inner()).take().map(|s| s.timed_out).unwrap_or(false);
+    let ctx = BATON_SIM.lock().unwrap_or_else(|e| e.into_inner()).take().unwrap_or_else(SimCtx::new);
+    (ctx, timed_out)
+}
+
+pub fn baton_set_task(t: usize) {
+    BATON_TASK.with(|c| c.set(t));
+}
+
+fn baton_pick_next(st: &mut BatonState, me: usize) {
+    let alive: Vec<usize> = (0..st.alive.len()).filter(|&i| st.alive[i]).collect();
+    if alive.is_empty() {
+        return;
+    }
+    st.decisions += 1;
+    st.current = if st.alive.get(me).copied().unwrap_or(false) && st.stay > 0 && st.rng.chance(st.stay, 100) {
+        me
+    } else {
+        alive[st.rng.below(alive.len())]
+    };
+}
+
+fn baton_wait_turn(me: usize) {
+    let mut g = BATON_STATE.lock().unwrap_or_else(|e| e.into_inner());
+    loop {
+        let Some(st) = g.as_mut() else { return };
+        if st.current == me || st.timed_out {
+            return;
+        }
+        if std::time::Instant::now() > st.deadline {
+            st.timed_out = true;
+            BATON_CV.notify_all();
+            return;
+        }
+        let (g2, _) = BATON_CV.wait_timeout(g, std::time::Duration::from_millis(50)).unwrap_or_else(|e| e.into_inner());
+        g = g2;
+    }
+}
+
+/// a task thread starts: wait for the baton
+pub fn baton_enter(me: usize) {
+    baton_set_task(me);
+    baton_wait_turn(me);
+}
+
+/// scheduling point on a real thread
+pub fn baton_yield() {
+    let me = BATON_TASK.with(|c| c.get());
+    {
+        let mut g = BATON_STATE.lock().unwrap_or_else(|e| e.into_inner());
+        if let Some(st) = g.as_mut() {
+            baton_pick_next(st, me);
+        }
+        BATON_CV.notify_all();
+    }
+    baton_wait_turn(me);
+}
+
+/// a task thread is done
+pub fn baton_exit() {
+    let me = BATON_TASK.with(|c| c.get());
+    let mut g = BATON_STATE.lock().unwrap_or_else(|e| e.into_inner());
+    if let Some(st) = g.as_mut() {
+        if me < st.alive.len() {
+            st.alive[me] = false;
+        }
+        baton_pick_next(st, usize::MAX);
+    }
+    BATON_CV.notify_all();
+}
+
 pub fn with<R>(f: impl FnOnce(&mut SimCtx) -> R) -> R {
+    if baton_on() {
+        let mut g = BATON_SIM.lock().unwrap_or_else(|e| e.into_inner());
+        if let Some(c) = g.as_mut() {
+            return f(c);
+        }
+    }
     SIM.with(|s| f(&mut s.borrow_mut()))
 }
 
 pub fn in_sim() -> bool {
-    SIM.with(|s| s.borrow().in_sim)
+    with(|s| s.in_sim)
 }
 
 pub fn task_id() -> usize {
+    if baton_on() {
+        return BATON_TASK.with(|c| c.get());
+    }
     if in_sim() {
         shuttle::current::me().into()
     } else {
@@ -220,7 +351,11 @@ pub fn seam(kind: SeamKind) {
             .find(|f| f.seam == kind && f.n == n)
             .map(|f| (f.action.clone(), depth))
     });
-    shuttle::thread::sleep(std::time::Duration::ZERO);
+    if baton_on() {
+        baton_yield();
+    } else {
+        shuttle::thread::sleep(std::time::Duration::ZERO);
+    }
     match action {
         Some((SeamAction::Panic, _)) => {
             fired(match kind {
